@@ -311,7 +311,7 @@ impl CraneliftCompiler {
                         loaded
                     };
 
-                    self.set_dst(bcx, &insn, ext);
+                    bcx.def_var(self.registers[0], ext);
                 }
                 ebpf::LD_DW_IMM => {
                     insn_ptr += 1;
@@ -946,7 +946,7 @@ impl CraneliftCompiler {
 
                     let call = bcx.ins().call(func_ref, &[arg0, arg1, arg2, arg3, arg4]);
                     let ret = bcx.inst_results(call)[0];
-                    self.set_dst(bcx, &insn, ret);
+                    bcx.def_var(self.registers[0], ret);
                 }
                 ebpf::TAIL_CALL => unimplemented!(),
                 ebpf::EXIT => {
